@@ -31,12 +31,12 @@ def Pc.inHand : Pc → Option Item
   | .cn _ _ _ it => some it
   | _ => none
 
-def Pc.duTab : Pc → Option Nat
-  | .du hd _ _ => some hd
-  | _ => none
+def Pc.isDu (T : Nat) : Pc → Bool
+  | .du hd _ _ => hd == T
+  | _ => false
 
 /-- threads between `--cur_len == 0` and the fetch-dec of `used_buckets` of table `T` -/
-def pendingDec (thr : List Thread) (T : Nat) : Nat := (thr.map fun th => th.pc.duTab).count (some T)
+def pendingDec (thr : List Thread) (T : Nat) : Nat := thr.countP fun th => th.pc.isDu T
 
 /-- an item unlinked from an older table by a find that has not yet re-inserted it at the top -/
 def InFlight (thr : List Thread) (it : Item) : Prop :=
@@ -72,7 +72,8 @@ def NoIns : Op → Prop
 def HoldsTop (s : Store) (t k : Nat) : Prop := (s.bk s.top (s.hf k s.top)).lock = t + 1
 def HoldsOld (s : Store) (t k hd : Nat) : Prop := (s.bk hd (s.hf k hd)).lock = t + 1
 
-structure SInv (s : Store) (thr : List Thread) : Prop where
+/-- structure of the tables -/
+structure StructInv (s : Store) : Prop where
   nb0 : 1 ≤ s.nb0
   top : s.nb0 ≤ s.top
   hfr : ∀ k nb, s.hf k nb < 2 ^ nb
@@ -82,12 +83,24 @@ structure SInv (s : Store) (thr : List Thread) : Prop where
   skip : ∀ T T', Tin s T → (s.tab T).next < T' → T' < T → s.nb0 ≤ T' → EmptyT s T'
   nodup : ∀ T b, Tin s T → (s.bk T b).items.Nodup
   once : ∀ T T' b b' it, Tin s T → Tin s T' → it ∈ (s.bk T b).items → it ∈ (s.bk T' b').items → T = T'
-  used : ∀ T, s.nb0 ≤ T → T < s.top → (s.tab T).used = ((s.usedCount T : Nat) : Int) + ((pendingDec thr T : Nat) : Int)
+
+/-- `used_buckets` of an older table = its non-empty buckets + the decrements on their way -/
+def UsedInv (s : Store) (thr : List Thread) : Prop :=
+  ∀ T, s.nb0 ≤ T → T < s.top → (s.tab T).used = ((s.usedCount T : Nat) : Int) + ((pendingDec thr T : Nat) : Int)
+
+/-- the ghost map is what is stored plus what is being moved -/
+structure AbsInv (s : Store) (thr : List Thread) : Prop where
   absIn : ∀ it, Stored s it → it ∈ s.abs
   absOut : ∀ it, it ∈ s.abs → Stored s it ∨ InFlight thr it
   absKeys : s.abs.Pairwise fun a b => a.key ≠ b.key
-  excl : ∀ (t t' : Nat) (th th' : Thread), thr[t]? = some th → thr[t']? = some th' → th.pc.isWriter = true →
-            (th'.pc.isReader = true ∨ th'.pc.isWriter = true) → t = t'
+
+/-- read-write lock: a writer excludes everybody else -/
+def Excl (thr : List Thread) : Prop :=
+  ∀ (t t' : Nat) (th th' : Thread), thr[t]? = some th → thr[t']? = some th' → th.pc.isWriter = true →
+    (th'.pc.isReader = true ∨ th'.pc.isWriter = true) → t = t'
+
+/-- caller bookkeeping -/
+structure UserInv (s : Store) (thr : List Thread) : Prop where
   uAbs : ∀ it, it ∈ s.abs → plainKey it.key = true → it.key ∈ s.kheld
   uIns : ∀ (t : Nat) (th : Thread) (k : Nat), thr[t]? = some th → PendIns th k →
             k ∈ s.kheld ∧ (∀ it, it ∈ s.abs → it.key ≠ k) ∧
@@ -95,6 +108,13 @@ structure SInv (s : Store) (thr : List Thread) : Prop where
   uRm : ∀ (t : Nat) (th : Thread) (k : Nat), thr[t]? = some th → RmHold th k →
             k ∈ s.kheld ∧ (∀ it, it ∈ s.abs → it.key ≠ k) ∧
             ∀ (t' : Nat) (th' : Thread), thr[t']? = some th' → t' ≠ t → ¬ RmHold th' k
+
+structure SInv (s : Store) (thr : List Thread) : Prop where
+  st : StructInv s
+  used : UsedInv s thr
+  ab : AbsInv s thr
+  excl : Excl thr
+  user : UserInv s thr
 
 def TInv (s : Store) (t : Nat) (op : Op) : Pc → Prop
   | .idle => True
